@@ -21,6 +21,7 @@ from tlslite.constants import (ContentType, AlertLevel, AlertDescription,
 from tlslite.errors import (TLSRemoteAlert, TLSLocalAlert,
                             TLSAbruptCloseError, TLSAlert)
 from obl.C17 import CONN_FUNCS, _run
+from tlslite.handshakesettings import HandshakeSettings
 
 
 def call_sites():
@@ -343,3 +344,115 @@ def c06_3(I, shape):
                 I.check(ctype != ContentType.application_data,
                         "empty-application-data-is-legal")
         return
+
+
+# ---------------------------------------------------------------------------
+# C06.4  expectation sequence of the client's key-exchange flight
+# ---------------------------------------------------------------------------
+from obl.C20 import oracle as _suite_oracle, sym_id as _sym_id, pin as _pin, \
+    negotiable as _negotiable
+import tlslite.messages as _M
+
+
+class _Cut(BaseException):
+    pass
+
+
+@obligation("C06.4", lambda tier: [dict(version=[3, 3]), dict(version=[3, 1])],
+            functions=["tlslite.tlsconnection:TLSConnection._clientKeyExchange"],
+            assumes=["_getMsg is a stub that records its (expected, "
+                     "secondary) arguments and returns a message object of "
+                     "the first expected type - or, where a "
+                     "CertificateRequest is among the expected types, a "
+                     "symbolic choice between it and ServerHelloDone; the "
+                     "cipher suite is a symbolic id (one path per id class, "
+                     "negotiable TLS <= 1.2 suites); the flow is cut when it "
+                     "starts to process the key exchange",
+                     "oracle: key exchange / authentication read off the "
+                     "IANA name (C20's oracle); RFC 5246 7.3, RFC 5054 2.2: "
+                     "Certificate iff the suite authenticates with a "
+                     "certificate, ServerKeyExchange iff not plain RSA key "
+                     "transport, CertificateRequest only from a "
+                     "certificate-authenticated non-SRP server"],
+            max_paths=4000, also=("C05",))
+def c06_4(I, shape):
+    """the client asks for exactly the messages its negotiated key exchange
+    permits, in order, and refuses a CertificateRequest from an anonymous or
+    SRP server"""
+    version = tuple(shape["version"])
+    cs = _sym_id(I)
+    calls = []
+    conn, sock = make_conn(version, True, session=False)
+    want_cr = I.pick([False, True], "server_sends_certificate_request")
+
+    def fake_getmsg(expected, secondary=None, ctor=None):
+        if not isinstance(secondary, tuple):
+            secondary = (secondary,)
+        calls.append(tuple(secondary))
+        if HandshakeType.certificate_request in secondary and want_cr:
+            cr = _M.CertificateRequest(version)
+            cr.create([], [], [(4, 1)])
+            yield cr
+        elif HandshakeType.certificate_request in secondary:
+            yield _M.ServerHelloDone()
+        elif secondary[0] == HandshakeType.server_hello_done:
+            yield _M.ServerHelloDone()
+        elif secondary[0] == HandshakeType.certificate:
+            yield _M.Certificate(ctor, version)
+        elif secondary[0] == HandshakeType.server_key_exchange:
+            yield _M.ServerKeyExchange(ctor, version)
+        else:
+            raise AssertionError("unexpected expectation %r" % (secondary,))
+    conn._getMsg = fake_getmsg
+
+    def cut(*a, **k):
+        raise _Cut()
+        yield 0
+    conn._clientGetKeyFromChain = cut
+
+    class KX(object):
+        def processServerKeyExchange(self, *a):
+            raise _Cut()
+    settings = HandshakeSettings().validate()
+    try:
+        for r in conn._clientKeyExchange(settings, cs, None, None, 0, None,
+                                         bytearray(32), bytearray(32), KX()):
+            pass
+        end = "returned"
+    except _Cut:
+        end = "cut"
+    except TLSLocalAlert as e:
+        end = "alert"
+        alert = e
+    k = _pin(cs)
+    name = CipherSuite.ietfNames.get(k)
+    o = _suite_oracle(name) if name else None
+    if o is None or o["tls13"] or not _negotiable(k) or \
+            not CipherSuite.filterForVersion([k], version, version):
+        I.cover("not a TLS <= 1.2 suite")
+        return
+    authenticated = o["auth"] is not None
+    srp = o["kx"].startswith("srp")
+    want = []
+    if authenticated:
+        want.append((HandshakeType.certificate,))
+    if o["kx"] != "rsa":
+        want.append((HandshakeType.server_key_exchange,))
+    want.append((HandshakeType.certificate_request,
+                 HandshakeType.server_hello_done))
+    cr_allowed = authenticated and not srp
+    if want_cr and cr_allowed:
+        want.append((HandshakeType.server_hello_done,))
+    if want_cr and not cr_allowed:
+        I.check(end == "alert" and bool(
+            alert.description == AlertDescription.unexpected_message),
+            "certificate-request-from-anonymous-or-srp-server-refused",
+            detail=lambda: dict(suite=hex(k), name=name, end=end))
+        I.check(calls == want, "expectation-sequence-up-to-the-alert",
+                detail=lambda: dict(suite=hex(k), name=name, calls=calls))
+        return
+    I.check(end == "cut", "flight-accepted-and-key-exchange-started",
+            detail=lambda: dict(suite=hex(k), name=name, end=end))
+    I.check(calls == want, "expectation-sequence-matches-the-key-exchange",
+            detail=lambda: dict(suite=hex(k), name=name, calls=calls,
+                                want=want))
